@@ -80,6 +80,43 @@ Proof.
     + eapply TV_mono; [intros m'; apply in_app_l|]. apply IH. exact Hal0.
 Qed.
 
+(* a key recorded with the node's view or a later one is a signer of the certificate under
+   construction for that view, in every reachable state *)
+Theorem preach_TB P s : preach P s -> forall k, n_alive (g_node s k) = true ->
+  TB (pcfg P k) (n_live (g_node s k)).
+Proof.
+  induction 1 as [|s s' Hr IH Hs]; intros k0 Hal0.
+  - cbn [ginit g_node]. unfold boot0. apply TB_nil, node_boot_tv.
+  - assert (Hinv : forall k, n_alive (g_node s k) = true -> RC.cache_inv (pcfg P k) (n_live (g_node s k))).
+    { intros k Hal. destruct (preach_LI P s Hr k) as [_ HI]. destruct (HI Hal) as (Hc & _). exact Hc. }
+    assert (Hstep : forall k i, n_alive (g_node s k) = true ->
+              n_alive (fst (node_input (pcfg P k) (g_node s k) i)) = true ->
+              TB (pcfg P k) (n_live (fst (node_input (pcfg P k) (g_node s k) i)))).
+    { intros k i Hal Hal'. rewrite (node_input_live P k).
+      apply TB_step; [apply Hinv; exact Hal|reflexivity|apply IH; exact Hal|].
+      exact (node_input_alive_dead P k _ i Hal'). }
+    destruct Hs as [s k m Hk Hal Hin|s k Hk Hal|s k i j applied x Hk Hal Hci Hcr|s k Hk
+                   |s k n h q Hk Hal Hv Hkn Hn Hh|s k p j Hk Hal Hnt|s m Ha];
+      cbn [absorb add_msg g_node g_soup] in *; unfold set_node in *.
+    + destruct (k0 =? k) eqn:E.
+      * apply Z.eqb_eq in E. subst k0. apply Hstep; [exact Hal|exact Hal0].
+      * apply IH. exact Hal0.
+    + destruct (k0 =? k) eqn:E.
+      * apply Z.eqb_eq in E. subst k0. apply Hstep; [exact Hal|exact Hal0].
+      * apply IH. exact Hal0.
+    + destruct (k0 =? k) eqn:E.
+      * apply TB_nil. eapply node_crash_tv. exact Hcr.
+      * apply IH. exact Hal0.
+    + destruct (k0 =? k) eqn:E.
+      * apply TB_nil. unfold node_restart. apply node_boot_tv.
+      * apply IH. exact Hal0.
+    + destruct (k0 =? k) eqn:E.
+      * apply Z.eqb_eq in E. subst k0. apply Hstep; [exact Hal|exact Hal0].
+      * apply IH. exact Hal0.
+    + apply IH. exact Hal0.
+    + apply IH. exact Hal0.
+Qed.
+
 (* ================================================================== *)
 (* 2. honest timeout votes on the network and the durable positions    *)
 (* ================================================================== *)
@@ -200,6 +237,58 @@ Section TSigners.
     apply (union_bit (tqmap t) (bv_new (length C)) i Hf Hlt) in Hi. destruct Hi as [Hi|(en & Hin & Hi)].
     - exfalso. exact (nth_error_bv_new_true _ _ Hi).
     - exact (Hb en i Hin Hi).
+  Qed.
+
+  (* ---------- who may have signed a timeout certificate for view V or later ---------- *)
+  Lemma weight_incl bits bits' : length bits = length C -> length bits' = length C ->
+    (forall i, nth_error bits i = Some true -> nth_error bits' i = Some true) ->
+    weight W bits <= weight W bits'.
+  Proof.
+    intros Hl Hl' Hi. pose proof (committee_ok_W P HP) as Hok.
+    rewrite <- (wsum_bits W bits), <- (wsum_bits W bits') by (rewrite (W_length P); assumption).
+    apply (SafetyAbsLib.wsum_incl_le W (abyz P) Hok); [apply bits_idx_NoDup|].
+    intros i Hin. apply in_bits_idx. apply Hi. apply in_bits_idx. exact Hin.
+  Qed.
+
+  Lemma nth_error_seq0 n : forall a i, (i < n)%nat -> nth_error (seq a n) i = Some (a + i)%nat.
+  Proof.
+    induction n as [|n IH]; intros a i Hi; [lia|]. destruct i as [|i]; cbn [seq nth_error]; [f_equal; lia|].
+    rewrite IH by lia. f_equal. lia.
+  Qed.
+
+  (* validator i is Byzantine or has a timeout vote for view V or later on the network *)
+  Definition timed_out_bit (soup : list sgmsg) (V : Z) (i : nat) : bool :=
+    abyz P i ||
+    existsb (fun m => (m_key m =? key_of P i) && m_sig_ok m &&
+                      match m_msg m with MTimeout t => V <=? vnum (tview t) | _ => false end) soup.
+  Definition timed_out_bits (soup : list sgmsg) (V : Z) : list bool :=
+    map (timed_out_bit soup V) (seq 0 (length C)).
+
+  Lemma light_no_tqc soup V : weight W (timed_out_bits soup V) < quorum C ->
+    forall t, tqc_verify (p_g P) (p_e P) C t = Ok tt -> kt hon soup t -> vnum (tqview t) < V.
+  Proof.
+    intros Hlight t Hv [Hk _]. destruct (Z.lt_ge_cases (vnum (tqview t)) V) as [Hlt|Hge]; [exact Hlt|exfalso].
+    pose proof Hv as Hv0. apply tqc_verify_iff in Hv. destruct Hv as (_ & Hen & _ & Hq & _).
+    assert (Hf : Forall (fun en => length (snd en) = length (bv_new (length C))) (tqmap t)).
+    { eapply Forall_impl; [|exact Hen]. intros en (_ & E & _). rewrite E, bv_new_length. reflexivity. }
+    assert (Hl : length (union_from (bv_new (length C)) (tqmap t)) = length C).
+    { rewrite union_from_length by exact Hf. apply bv_new_length. }
+    assert (Hle : weight W (union_from (bv_new (length C)) (tqmap t)) <= weight W (timed_out_bits soup V)).
+    { apply weight_incl; [exact Hl|unfold timed_out_bits; rewrite map_length, seq_length; reflexivity|].
+      intros i Hi.
+      assert (Hlt : (i < length C)%nat) by (rewrite <- Hl; apply nth_error_Some; congruence).
+      unfold timed_out_bits. rewrite (map_nth_error _ i (seq 0 (length C)) (nth_error_seq0 _ 0%nat i Hlt)). f_equal.
+      cbn [Nat.add]. unfold timed_out_bit. destruct (abyz P i) eqn:Eb; [reflexivity|]. cbn [orb].
+      apply (union_bit (tqmap t) (bv_new (length C)) i Hf) in Hi; [|rewrite bv_new_length; exact Hlt].
+      destruct Hi as [Hi|(en & Hin & Hi)]; [exfalso; exact (nth_error_bv_new_true _ _ Hi)|].
+      assert (Hh : SafetyAbs.honest W (abyz P) i).
+      { split; [|exact Eb]. unfold SafetyAbs.member. rewrite (W_length P). exact Hlt. }
+      pose proof (tsigner_sig P t en i Hv0 Hin Hi) as Hsig.
+      pose proof (Hk _ _ Hsig (honest_key P i Hh)) as Hsent.
+      apply existsb_exists. eexists. split; [exact Hsent|]. cbn [m_key m_sig_ok m_msg].
+      rewrite Z.eqb_refl. cbn [andb]. apply Z.leb_le.
+      rewrite Forall_forall in Hen. destruct (Hen en Hin) as (Htv & _). rewrite Htv. exact Hge. }
+    lia.
   Qed.
 End TSigners.
 
